@@ -10,7 +10,8 @@
                            the next attempt only after an error);
    * report/ready          raft.go Peers (the node's LATEST configuration, i.e. of the entries it has received),
                            consensus.go WaitForSync = WaitForLeader + WaitForVoter (voter in its own latest configuration)
-                           + WaitForUpdates (applied index = last index).
+                           + WaitForUpdates (raft.AppliedIndex() = raft.LastIndex(); hashicorp/raft v1.1.1 advances the former
+                           when an entry is queued for the FSM, S25).
    What hashicorp/raft decides (whether an appended entry commits, who receives what when) is an explicit argument:
    the outcome of each attempt and the event list; theorems quantify over them. *)
 From V Require Import Base.Common Model.C01_RaftLog.
@@ -73,11 +74,13 @@ Definition cons_rm (init : list N) (lg : list mentry) (p : N) (os : list outcome
 
 (* ---- members: what each one has received and applied ---- *)
 Record member := mkmember {
-  m_recv : nat;        (* entries of the log this member holds (its last index) *)
-  m_applied : nat;     (* entries applied to its FSM (its applied index) *)
+  m_recv : nat;        (* entries of the log this member holds (its LastIndex) *)
+  m_queued : nat;      (* committed entries hashicorp/raft has handed to the FSM goroutine's queue: raft.go processLogs advances
+                          lastApplied - what AppliedIndex() returns - when an entry is QUEUED (buffer of 128), not when it is applied *)
+  m_applied : nat;     (* entries the FSM has really applied *)
   m_st : pinset        (* its pinset *)
 }.
-Definition member0 : member := mkmember 0 0 [].
+Definition member0 : member := mkmember 0 0 0 [].
 
 Definition entry_apply (s : pinset) (e : mentry) : pinset := match e with EOp op => apply_op s op | _ => s end.
 Definition state_at (lg : list mentry) (j : nat) : pinset := replay (ops_of (firstn j lg)).
@@ -85,7 +88,8 @@ Definition state_at (lg : list mentry) (j : nat) : pinset := replay (ops_of (fir
 Inductive cevent :=
 | CAppend (e : mentry)        (* the leader appends an entry that commits *)
 | CRecv (n : nat)             (* member n receives its next entry (AppendEntries) *)
-| CApply (n : nat)            (* member n applies its next received entry *)
+| CQueue (n : nat)            (* member n learns that its next received entry is committed and queues it for its FSM *)
+| CApply (n : nat)            (* member n's FSM applies its next queued entry *)
 | CInstall (n : nat) (j : nat)  (* member n is sent a snapshot of the first j entries (state and configuration) *)
 | CRestart (n : nat).         (* member n restarts: its log survives, its FSM starts empty *)
 
@@ -98,25 +102,28 @@ Definition cstep (cl : mcluster) (e : cevent) : mcluster :=
   match e with
   | CAppend x => mkmcluster (mlog cl ++ [x]) (members cl)
   | CRecv n =>
-      mkmcluster (mlog cl) (mupd n (fun m => if Nat.ltb (m_recv m) (length (mlog cl)) then mkmember (S (m_recv m)) (m_applied m) (m_st m) else m) (members cl))
+      mkmcluster (mlog cl) (mupd n (fun m => if Nat.ltb (m_recv m) (length (mlog cl)) then mkmember (S (m_recv m)) (m_queued m) (m_applied m) (m_st m) else m) (members cl))
+  | CQueue n =>
+      mkmcluster (mlog cl) (mupd n (fun m => if Nat.ltb (m_queued m) (m_recv m) then mkmember (m_recv m) (S (m_queued m)) (m_applied m) (m_st m) else m) (members cl))
   | CApply n =>
       mkmcluster (mlog cl) (mupd n (fun m =>
-        if Nat.ltb (m_applied m) (m_recv m) then
+        if Nat.ltb (m_applied m) (m_queued m) then
           match nth_error (mlog cl) (m_applied m) with
-          | Some x => mkmember (m_recv m) (S (m_applied m)) (entry_apply (m_st m) x)
+          | Some x => mkmember (m_recv m) (m_queued m) (S (m_applied m)) (entry_apply (m_st m) x)
           | None => m end
         else m) (members cl))
   | CInstall n j =>
+      (* the restore goes through the same queue and the installer waits for it: everything queued before is applied first *)
       if Nat.leb j (length (mlog cl)) then
-        mkmcluster (mlog cl) (mupd n (fun m => mkmember (Nat.max j (m_recv m)) j (state_at (mlog cl) j)) (members cl))
+        mkmcluster (mlog cl) (mupd n (fun m => mkmember (Nat.max j (m_recv m)) j j (state_at (mlog cl) j)) (members cl))
       else cl
-  | CRestart n => mkmcluster (mlog cl) (mupd n (fun m => mkmember (m_recv m) 0 []) (members cl))
+  | CRestart n => mkmcluster (mlog cl) (mupd n (fun m => mkmember (m_recv m) 0 0 []) (members cl))
   end.
 Definition crun (cl : mcluster) (es : list cevent) : mcluster := fold_left cstep es cl.
 Definition cinit (k : nat) : mcluster := mkmcluster [] (repeat member0 k).
 
 (* Peers() of a member: its latest configuration *)
 Definition report (init : list N) (cl : mcluster) (m : member) : list N := peers_of init (firstn (m_recv m) (mlog cl)).
-(* WaitForSync returned on member number p: voter in its own latest configuration and applied = last *)
+(* WaitForSync returned on member number p: voter in its own latest configuration and AppliedIndex() = LastIndex() *)
 Definition ready (init : list N) (cl : mcluster) (p : N) (m : member) : bool :=
-  memN p (report init cl m) && Nat.eqb (m_applied m) (m_recv m).
+  memN p (report init cl m) && Nat.eqb (m_queued m) (m_recv m).
